@@ -27,7 +27,7 @@ theorem holders_nil_of_unlocked {s : St} (hi : Inv s) (h : s.lockFile = false) :
   · rw [h] at hl; cases hl
 
 theorem inv_step (s : St) (a : Act) (hi : Inv s) (he : enabled s a = true) (hd : disciplined s a = true) :
-    Inv (step false s a).1 := by
+    Inv (step false false s a).1 := by
   cases a with
   | acquire p =>
     cases hl : s.lockFile
@@ -35,7 +35,7 @@ theorem inv_step (s : St) (a : Act) (hi : Inv s) (he : enabled s a = true) (hd :
       simp only [step, hl, Bool.false_eq_true, if_false]
       refine ⟨Or.inr ⟨p, by simp [hh], rfl⟩, ?_⟩
       intro x hx; exact mem_cons_of_mem _ (hi.reg x hx)
-    · have : (step false s (.acquire p)).1 = s := by
+    · have : (step false false s (.acquire p)).1 = s := by
         cases s; simp_all [step]
       rw [this]; exact hi
   | register p =>
@@ -89,8 +89,18 @@ theorem inv_step (s : St) (a : Act) (hi : Inv s) (he : enabled s a = true) (hd :
     simp only [disciplined, isEmpty_iff] at hd
     simp only [step]
     refine ⟨Or.inl hd, hi.reg⟩
+  | acquireErr p => simp [disciplined] at hd
+  | start p =>
+    cases hl : s.lockFile
+    · have hh := holders_nil_of_unlocked hi hl
+      simp only [step, hl, Bool.false_eq_true, if_false]
+      refine ⟨Or.inr ⟨p, by simp [hh], rfl⟩, ?_⟩
+      intro x hx; exact mem_cons_of_mem _ (hi.reg x hx)
+    · have : (step false false s (.start p)).1 = s := by
+        cases s; simp_all [step]
+      rw [this]; exact hi
 
-theorem inv_run : ∀ (tr : List Act) (s s' : St), Inv s → run false disciplined s tr = some s' → Inv s'
+theorem inv_run : ∀ (tr : List Act) (s s' : St), Inv s → run false false disciplined s tr = some s' → Inv s'
   | [], s, s', hi, h => by simp only [run, Option.some.injEq] at h; exact h ▸ hi
   | a :: r, s, s', hi, h => by
     simp only [run] at h
